@@ -33,6 +33,11 @@ class Violation:
         return f"Violation({self.label}, {self.kind})"
 
 
+def _tiny_const(p):
+    """a constant residue below 1e-10: rounding of inexact (float-valued) constants, see DESIGN 6.3"""
+    return p.is_const() and abs(float(p.cval())) <= 1e-10
+
+
 class Explorer:
     def __init__(self):
         self.timeout_ms = 10000  # obligations
@@ -295,12 +300,12 @@ class Explorer:
                 for q in (p.re, p.im):
                     if q.t:
                         q = core.clear_denominators(q)
-                        if q.t:
+                        if q.t and not _tiny_const(q):
                             nz.append(q)
             else:
                 if p.t:
                     p = core.clear_denominators(p)
-                    if p.t:
+                    if p.t and not _tiny_const(p):
                         nz.append(p)
         if not nz:
             # normal form closed it; the (now trivial) query PC & false is still counted as discharged
